@@ -12,7 +12,8 @@ Next == l < Len(Rows) /\ l' = l + 1 /\ UNCHANGED kind
 Spec == Init /\ [][Next]_<<kind, l>>
 R == Rows[l]
 C20_NoSurvivor == l <= Len(Rows) => (R.started > 0 /\ R.reported /\ R.afterGrace = 0)
-C20_Bounded == l <= Len(Rows) => (R.reported /\ R.elapsedMs <= R.timeoutMs + LatencyMs /\ R.canceled)
+\* (stallMs: how late a 5 ms sleeper woke up in the meantime - the scheduling latency the machine showed)
+C20_Bounded == l <= Len(Rows) => (R.reported /\ R.elapsedMs <= R.timeoutMs + LatencyMs + 20 * R.stallMs /\ R.canceled)
 C20_OthersUntouched == l <= Len(Rows) => R.otherAlive
 Alias == [kind |-> kind, line |-> l]
 =============================================================================
